@@ -159,7 +159,7 @@ impl stretto::UpdateValidator for Validator {
 
 /// captures the integer written by `u64::hash`
 #[derive(Default)]
-struct Capture(u64);
+pub struct Capture(pub u64);
 impl Hasher for Capture {
     fn finish(&self) -> u64 {
         self.0
